@@ -55,6 +55,11 @@ def Veq(rho, v_free, rho_crit, a):
 def controlled_Veq(rho, v_ctrl, vsl, alpha, v_free, rho_crit, a):
     """(3.11) on the segments with a sign: min(V(rho), (1+alpha) v_ctrl)"""
     V = Veq(rho, v_free, rho_crit, a)
+    if isinstance(vsl, (list, tuple)):
+        out = V
+        for j, k in enumerate(vsl):
+            out = ("upd", out, k, mn(idx(V, k), mul(add(ONE, alpha), idx(v_ctrl, j))))
+        return out
     return ("updset", V, vsl, mn(("idxset", V, vsl), mul(add(ONE, alpha), v_ctrl)))
 
 
